@@ -512,6 +512,7 @@ func scenariosFor(tier string) []vrt.Scenario {
 	}
 	{
 		sc := stagesStop()
+		sc.Weight = 4
 		sc.Bound = 2
 		if tier != "quick" {
 			sc.Bound = 3
